@@ -158,6 +158,9 @@ class FnSpec:
         kind, v = eng.exec_function(eng.fdef, env)
         if kind == "return":
             ctx.result = v
+            # proof steps: lemmas proved at the exit (each from the facts so far) and then available to the post-conditions
+            for name, c in self._clauses(self.proof_steps(ctx)):
+                eng.oblige("lemma:" + name, c, kind="lemma", node=eng.fdef, cut=True)
             for name, c in self._clauses(self.ensures(ctx)):
                 eng.oblige("ensures:" + name, c, kind="post", node=eng.fdef, cut=False)
         else:
@@ -167,6 +170,10 @@ class FnSpec:
 
     def on_entry(self, eng, ctx):
         pass
+
+    def proof_steps(self, ctx):
+        """[(name, clause)]: intermediate lemmas at a normal exit (obligations, then assumed)"""
+        return []
 
     def _assume_wf(self, eng, a):
         if isinstance(a, Sym):
@@ -608,6 +615,18 @@ class FnSpec:
             eng.assume(z3.Length(r.term) <= n)
             eng.assume(z3.Length(r.term) >= 0)
             eng.assume((z3.Length(r.term) > 0) == z3.Exists([i], z3.And(rng, cond)), heavy=True)
+            if not getattr(self, "filter_subsequence_axioms", False):
+                return r
+            # (opt-in: two more quantified facts per filtered comprehension slow every later obligation of the path)
+            # the result is a sub-sequence: distinct source elements give distinct result elements
+            i1, i2 = z3.Int(sv.fresh_name("ci1")), z3.Int(sv.fresh_name("ci2"))
+            j1, j2 = z3.Int(sv.fresh_name("cj1")), z3.Int(sv.fresh_name("cj2"))
+            e1, e2 = z3.substitute(elt.term, (i, i1)), z3.substitute(elt.term, (i, i2))
+            src_distinct = z3.ForAll([i1, i2], z3.Implies(z3.And(i1 >= 0, i1 < n, i2 >= 0, i2 < n, i1 != i2), e1 != e2))
+            res_distinct = z3.ForAll([j1, j2], z3.Implies(z3.And(j1 >= 0, j1 < z3.Length(r.term), j2 >= 0, j2 < z3.Length(r.term), j1 != j2), r.term[j1] != r.term[j2]))
+            eng.assume(z3.Implies(src_distinct, res_distinct), heavy=True)
+            # the result is a sub-sequence: it is as long as the source iff nothing was filtered out
+            eng.assume((z3.Length(r.term) == n) == z3.ForAll([i], z3.Implies(rng, cond)), heavy=True)
             eng.assume(
                 z3.ForAll([j], z3.Implies(z3.And(j >= 0, j < z3.Length(r.term)), z3.Exists([i], z3.And(rng, cond, r.term[j] == elt.term)))),
                 heavy=True,
